@@ -69,6 +69,7 @@ class UnitSpec:
         self.stub_aliases = []
         self.callable_policy = []
         self.inline_only = []
+        self.counters = False
         self.functions = {}    # cname -> FnSpec
         self.order = []
         self.lemmas = {}
@@ -145,6 +146,8 @@ def parse(u, path):
                     asn = asn.strip()
                 parts = rest.split()
                 u.emit.append((parts[0], parts[1] if len(parts) > 1 else None, asn))
+            elif kw == 'counters':
+                u.counters = rest in ('yes', 'true', 'on')
             elif kw == 'inline-only':
                 u.inline_only.append(rest)
             elif kw == 'callable':
